@@ -282,7 +282,7 @@ Proof.
     | s fn fn' args args' Hfn IHfn Hargs
     | s f args args' Hargs
     | s recv recv' mname args args' Hrecv IHrecv Hargs
-    | s a t t' Ha IHa Hclosed Hseq
+    | s a t t' Ha IHa Hclosed Hseq Htseq
     | s a t v Ha IHa Hclosed Hg ];
     intros env env' k Henv Hk D.
   - (* const *) destruct k as [|k]; [lia|]. rr. constructor. auto.
